@@ -216,6 +216,56 @@ def py_no_rewrite(ctx, py, F):
                line=rewrites[0].lineno if rewrites else None)
 
 
+def sensor_calibration_vector(ctx, sc=None):
+    """LAY-BUILD for the sensor side (shared by C05 / C13): every SensorModel's frozen calibration vector is a column indexed by the sorted
+    calibration symbols -- the order its compiled block takes them in -- not by the order of the user's calibration_map"""
+    F_ = "py/formak/python.py"
+    ctx.rule("LAY-BUILD", "the frozen calibration vector of a (sensor) model is indexed by the sorted calibration symbols")
+    if sc is None:
+        sc = scenarios.PyEKF(ctx, run=("sensor_model",))
+    K = Layout((seg("CALIB"),))
+    smo = getattr(sc, "sensor_model_obj", None)
+    cv = getattr(smo, "attrs", {}).get("calibration_vector") if smo is not None else None
+    if cv is None:
+        ctx.error("SensorModel.calibration_vector could not be derived")
+        return
+    if not isinstance(cv, ArrV):
+        ctx.error(f"{F_}:SensorModel.__init__: self.calibration_vector evaluates to {cv!r}: how it is built is not an enumerated idiom (its order cannot be decided)")
+        return
+    ok = isinstance(cv, ArrV) and cv.rows == K and cv.cols == ONE
+    ctx.oblige("LAY-BUILD", f"{F_}:SensorModel.__init__", f"self.calibration_vector : {cv!r}", ok, file=F_, func="SensorModel.__init__", construct="self.calibration_vector",
+               msg=f"the sensor model's frozen calibration vector is {cv!r}; required a column indexed by the sorted calibration symbols {K} "
+                   f"(its compiled block takes them in that order: another order binds calibration values to the wrong symbols)")
+
+
+def py_stmt_source(ctx, py, F):
+    """STMT-SOURCE: the statements handed to a compiled block are the user's expressions themselves, chosen by name -- never by their VALUE.  An
+    element `model[a] or a`, `x if model[a] else y`, `model.get(a, fallback)` makes what is compiled depend on the truth value of a sympy
+    expression (an update expression that is exactly zero is falsy) or silently supplies an expression the user never wrote."""
+    ctx.rule("STMT-SOURCE", "block statements are the user's expressions selected by name: no truth-value test of an expression, no fallback expression")
+    n = 0
+    for c in ast.walk(py):
+        if not (isinstance(c, ast.Call) and ast.unparse(c.func).split(".")[-1] == "BasicBlock"):
+            continue
+        for k in c.keywords:
+            if k.arg != "statements":
+                continue
+            n += 1
+            elts = [k.value.elt] if isinstance(k.value, (ast.ListComp, ast.GeneratorExp)) else (list(k.value.elts) if isinstance(k.value, (ast.List, ast.Tuple)) else [])
+            bad = []
+            for e in elts:
+                for x in ast.walk(e):
+                    if isinstance(x, ast.BoolOp) or isinstance(x, ast.IfExp):
+                        bad.append(x)
+                    elif isinstance(x, ast.Call) and isinstance(x.func, ast.Attribute) and x.func.attr in ("get", "setdefault", "pop") and len(x.args) + len(x.keywords) >= 2:
+                        bad.append(x)
+            ctx.oblige("STMT-SOURCE", f"{F}:{c.lineno}", f"statements=`{ast.unparse(k.value)[:60]}`", not bad, file=F, func="<block construction>",
+                       construct="statement source:" + (ast.unparse(bad[0])[:50] if bad else "by name"), line=c.lineno,
+                       msg=f"a compiled statement is chosen by `{ast.unparse(bad[0])[:70]}`: the truth value of the user's expression (zero is falsy) or a fallback "
+                           f"decides what is compiled, so a state whose update is exactly 0 is compiled as something else" if bad else "")
+    ctx.floor("STMT-SOURCE", n, 2, "BasicBlock(statements=...) construction sites in python.py")
+
+
 def py_eval_pure(ctx: core.Ctx, py: ast.Module, F_: str):
     """EVAL-PURE: evaluating the compiled model writes nothing into the model object -- the returned State owns its storage.  A result built in a
     buffer kept on `self` (allocated once, filled per call, handed out through from_data) is the same array for every call: the State returned
@@ -321,6 +371,7 @@ def run(ctx: core.Ctx) -> int:
     ctx.rule("PY-PURE", "python.py / common.py keep no module-level mutable state written by functions")
     _c15.gen_pure(ctx, {"python": F, "common": "py/formak/common.py"}, rule="PY-PURE", floor=40)
     py_no_rewrite(ctx, py, F)
+    py_stmt_source(ctx, py, F)
     py_float_buffers(ctx, py, F)
     py_eval_pure(ctx, py, F)
     py_once(ctx, py, F)
